@@ -243,3 +243,492 @@ Proof.
   unfold bl_last_vbf. destruct (bl_sub (boa_vbf lastarg) outS) as [s|] eqn:H1; [|discriminate].
   apply sub_spec in H1. intros Hr. apply sub_all_spec in Hr. rewrite Hr, H1. reflexivity.
 Qed.
+
+(* ================= Part 3: the write-back and the ledger of G coefficients ================= *)
+
+(* G coefficient of the commitment written on an output (0 while it is explicit) *)
+Definition out_g (o : bl_pout) : Z :=
+  match bpo_open o with Some (a, v) => bpo_value o * bl_sc a + bl_sc v | None => 0 end.
+Definition ledger_out (outs : list bl_pout) : Z := sumZ (map out_g outs).
+Definition scal_sum (p : bl_pset) : Z := sumZ (map bl_sc (bps_scalars p)).
+(* what has been committed on outputs and not yet been accounted for by a published scalar *)
+Definition ledger_D (p : bl_pset) : Z := ledger_out (bps_outs p) - scal_sum p.
+
+Lemma upd_sum {A} (f : A -> Z) : forall l i x y, nth_error l i = Some y ->
+  sumZ (map f (bl_upd l i x)) = sumZ (map f l) - f y + f x.
+Proof.
+  induction l as [|h t IH]; intros [|i] x y; cbn [nth_error bl_upd map sumZ]; try discriminate.
+  - intros [= <-]. lia.
+  - intros H. rewrite (IH _ _ _ H). lia.
+Qed.
+Lemma upd_map_same {A B} (f : A -> B) : forall l i x y, nth_error l i = Some y -> f x = f y ->
+  map f (bl_upd l i x) = map f l.
+Proof.
+  induction l as [|h t IH]; intros [|i] x y; cbn [nth_error bl_upd map]; try discriminate.
+  - intros [= <-] ->. reflexivity.
+  - intros H E. now rewrite (IH _ _ _ H E).
+Qed.
+Lemma Forall_upd {A} (P : A -> Prop) : forall l i x, Forall P l -> P x -> Forall P (bl_upd l i x).
+Proof.
+  induction l as [|h t IH]; intros [|i] x Hl Hx; cbn [bl_upd]; auto; inversion Hl; subst; constructor; auto.
+Qed.
+Lemma bl_nth_map {A B} (f : A -> B) l i : bl_nth (map f l) i = option_map f (bl_nth l i).
+Proof.
+  unfold bl_nth. rewrite map_length. destruct (i <? N.of_nat (length l))%N; [|reflexivity].
+  rewrite nth_error_map. reflexivity.
+Qed.
+Lemma bl_sc_ob o : bl_sc (bl_ob o) = bl_v o.
+Proof. destruct o; reflexivity. Qed.
+
+(* no output is blinded twice: every slot a blinder writes is still explicit when it writes it *)
+Fixpoint fresh_outs (outs : list bl_pout) (args : list bl_outarg) (last : bool) (lv : bytes) : Prop :=
+  match args with
+  | [] => True
+  | a :: rest =>
+      let islast := last && match rest with [] => true | _ => false end in
+      match bl_nth outs (boa_idx a) with Some o => bpo_open o = None | None => False end /\
+      fresh_outs (bl_write_out outs (boa_idx a) (bl_ob (boa_abf a)) (if islast then lv else bl_ob (boa_vbf a))) rest last lv
+  end.
+
+(* what the write-back adds: like out_sum, but the last blinder's last output carries lv *)
+Fixpoint wb_sum (vals : list Z) (args : list bl_outarg) (last : bool) (lv : bytes) : Z :=
+  match args with
+  | [] => 0
+  | a :: rest =>
+      let islast := last && match rest with [] => true | _ => false end in
+      match bl_nth vals (boa_idx a) with
+      | Some v => v * bl_v (boa_abf a) + (if islast then bl_sc lv else bl_v (boa_vbf a))
+      | None => 0
+      end + wb_sum vals rest last lv
+  end.
+
+Lemma write_out_vals outs idx a v : map bpo_value (bl_write_out outs idx a v) = map bpo_value outs.
+Proof.
+  unfold bl_write_out. destruct (bl_nth outs idx) as [o|] eqn:Ho; [|reflexivity].
+  apply bl_nth_nth_error in Ho. now apply (upd_map_same bpo_value _ _ _ _ Ho).
+Qed.
+
+Lemma write_outs_ledger last lv : forall args outs, fresh_outs outs args last lv ->
+  ledger_out (bl_write_outs outs args last lv) = ledger_out outs + wb_sum (map bpo_value outs) args last lv.
+Proof.
+  induction args as [|a rest IH]; intros outs Hf; cbn [bl_write_outs wb_sum fresh_outs] in *.
+  - lia.
+  - destruct Hf as [Hslot Hf]. destruct (bl_nth outs (boa_idx a)) as [o|] eqn:Ho; [|contradiction].
+    rewrite (IH _ Hf). rewrite write_out_vals. rewrite bl_nth_map, Ho. cbn [option_map].
+    unfold bl_write_out. rewrite Ho. unfold ledger_out at 1.
+    rewrite (upd_sum out_g _ _ _ _ (bl_nth_nth_error _ _ _ Ho)). fold (ledger_out outs).
+    unfold out_g at 1. rewrite Hslot. unfold out_g. cbn [bpo_open bpo_value].
+    rewrite bl_sc_ob. destruct (last && match rest with [] => true | _ => false end); rewrite ?bl_sc_ob; lia.
+Qed.
+
+Definition out_term_v (vals : list Z) (a : bl_outarg) : Z :=
+  match bl_nth vals (boa_idx a) with Some v => g3 v (boa_abf a) (boa_vbf a) | None => 0 end.
+Lemma out_sum_vals outs args : out_sum outs args = sumZ (map (out_term_v (map bpo_value outs)) args).
+Proof.
+  unfold out_sum. f_equal. apply map_ext. intros a. unfold out_term, out_term_v. rewrite bl_nth_map.
+  destruct (bl_nth outs (boa_idx a)); reflexivity.
+Qed.
+
+Lemma wb_sum_spec vals last lv : forall pre la,
+  bl_nth vals (boa_idx la) <> None ->
+  wb_sum vals (pre ++ [la]) last lv =
+  sumZ (map (out_term_v vals) (pre ++ [la])) - (if last then bl_v (boa_vbf la) - bl_sc lv else 0).
+Proof.
+  induction pre as [|a pre IH]; intros la Hla.
+  - cbn [app wb_sum map sumZ]. unfold out_term_v, g3. destruct (bl_nth vals (boa_idx la)); [|congruence].
+    destruct last; cbn [andb]; lia.
+  - cbn [app wb_sum map sumZ]. rewrite (IH la Hla).
+    replace (match pre ++ [la] with [] => true | _ :: _ => false end) with false by (destruct pre; reflexivity).
+    rewrite Bool.andb_false_r. unfold out_term_v at 2, g3. destruct (bl_nth vals (boa_idx a)); lia.
+Qed.
+
+Lemma is_fully_blinded_false p : bl_is_fully_blinded p = false.
+Proof.
+  unfold bl_is_fully_blinded, bl_needs_blinding.
+  destruct (existsb (fun o => bl_out_needs o && negb (bl_out_full o)) (bps_outs p)); reflexivity.
+Qed.
+
+Lemma write_iss_wf ins a : Forall (fun i => 0 <= bpi_issv i /\ 0 <= bpi_issk i) ins ->
+  Forall (fun i => 0 <= bpi_issv i /\ 0 <= bpi_issk i) (bl_write_iss ins a).
+Proof.
+  intros H. unfold bl_write_iss. destruct (bl_nth ins (bia_idx a)) as [i|] eqn:Hi; [|exact H].
+  apply Forall_upd; [exact H|]. cbn [bpi_issv bpi_issk]. apply bl_nth_In in Hi. rewrite Forall_forall in H. now apply H.
+Qed.
+Lemma write_outs_wf last lv : forall args outs, Forall (fun o => 0 <= bpo_value o) outs ->
+  Forall (fun o => 0 <= bpo_value o) (bl_write_outs outs args last lv).
+Proof.
+  induction args as [|a rest IH]; intros outs H; cbn [bl_write_outs]; [exact H|]. apply IH.
+  unfold bl_write_out. destruct (bl_nth outs (boa_idx a)) as [o|] eqn:Ho; [|exact H].
+  apply Forall_upd; [exact H|]. cbn [bpo_value]. apply bl_nth_In in Ho. rewrite Forall_forall in H. now apply H.
+Qed.
+
+(* one call of Blinder.blind *)
+Lemma blind_step fixp p owned iss args0 last vok s : wf_pset p -> wf_owned owned ->
+  bl_blind fixp p owned iss args0 last vok = BOk s ->
+  fresh_outs (bps_outs p) (bl_sort args0) last (bl_ob (bso_lastvbf s)) ->
+  wf_pset (bso_pset s) /\
+  (last = true -> bps_scalars (bso_pset s) = []) /\
+  eqn (ledger_D (bso_pset s)) (ledger_D p + (if negb last && negb fixp then 0 else in_sum p iss owned)).
+Proof.
+  intros Hwf Hwo. unfold bl_blind. rewrite is_fully_blinded_false.
+  destruct (negb (forallb (bl_issarg_ok p) iss)); [discriminate|].
+  set (args := bl_sort args0).
+  destruct (negb (forallb (bl_outarg_ok p) args)) eqn:Hok; [discriminate|].
+  destruct (negb (bl_validate_args p owned args vok)); [discriminate|].
+  destruct (bl_input_scalar p iss owned None) as [inS|] eqn:Hin; [|discriminate].
+  destruct (bl_output_scalar fixp p inS args last) as [outS|] eqn:Hout; [|discriminate].
+  destruct (rev args) as [|lastarg rargs] eqn:Hrev; [discriminate|].
+  destruct (if last then bl_last_vbf p lastarg outS else Some None) as [lv|] eqn:Hlv; [|discriminate].
+  destruct (bl_sanity _); [|discriminate]. intros [= <-]. cbn [bso_pset bso_lastvbf]. intros Hfresh.
+  apply input_scalar_spec in Hin; [|exact Hwf|exact Hwo]. cbn [bl_v] in Hin.
+  apply output_scalar_spec in Hout; [|exact Hwf].
+  assert (Hargs : args = rev rargs ++ [lastarg]).
+  { rewrite <- (rev_involutive args), Hrev. reflexivity. }
+  assert (Hla : bl_nth (map bpo_value (bps_outs p)) (boa_idx lastarg) <> None).
+  { apply Bool.negb_false_iff in Hok. rewrite forallb_forall in Hok.
+    assert (Hi : In lastarg args) by (rewrite Hargs; apply in_or_app; right; left; reflexivity).
+    apply Hok in Hi. unfold bl_outarg_ok in Hi. rewrite bl_nth_map.
+    destruct (bl_nth (bps_outs p) (boa_idx lastarg)); [discriminate|discriminate Hi]. }
+  split; [|split].
+  - destruct Hwf as [Hi Ho]. split; cbn [bps_ins bps_outs].
+    + clear -Hi. revert Hi. generalize (bps_ins p). induction iss as [|a t IH]; intros l Hl; cbn [fold_left]; [exact Hl|].
+      apply IH. now apply write_iss_wf.
+    + now apply write_outs_wf.
+  - intros ->. reflexivity.
+  - unfold ledger_D, scal_sum. cbn [bps_outs bps_scalars].
+    rewrite (write_outs_ledger _ _ _ _ Hfresh). rewrite Hargs at 1. rewrite (wb_sum_spec _ _ _ _ _ Hla).
+    rewrite <- Hargs. rewrite <- out_sum_vals. rewrite bl_sc_ob.
+    destruct last.
+    + cbn [negb andb] in *. apply last_vbf_spec in Hlv. cbn [map sumZ]. rewrite Hlv, Hout, Hin.
+      unfold scal_sum. eqn_ring.
+    + injection Hlv as <-. cbn [bl_v]. rewrite map_app, sumZ_app. cbn [map sumZ]. rewrite bl_sc_ob.
+      rewrite Hout. cbn [negb andb]. destruct fixp; cbn [negb]; [rewrite Hin|]; eqn_ring.
+Qed.
+
+(* ================= Part 4: any number of parties, any order ================= *)
+
+Definition is_last {A} (rest : list A) : bool := match rest with [] => true | _ => false end.
+
+(* what each party contributes to the ledger: its input scalar when it is accounted for *)
+Fixpoint run_contrib (fixp : bool) (p : bl_pset) (ps : list bl_party) : Z :=
+  match ps with
+  | [] => 0
+  | pa :: rest =>
+      match bl_party_step fixp p pa (is_last rest) with
+      | BOk s => (if negb (is_last rest) && negb fixp then 0 else in_sum p (bpa_iss pa) (bpa_owned pa))
+                 + run_contrib fixp (bso_pset s) rest
+      | _ => 0
+      end
+  end.
+(* no output is blinded twice along the run, amounts are non-negative *)
+Fixpoint run_fresh (fixp : bool) (p : bl_pset) (ps : list bl_party) : Prop :=
+  match ps with
+  | [] => True
+  | pa :: rest =>
+      match bl_party_step fixp p pa (is_last rest) with
+      | BOk s => fresh_outs (bps_outs p) (bl_sort (bpa_outs pa)) (is_last rest) (bl_ob (bso_lastvbf s)) /\
+                 wf_owned (bpa_owned pa) /\ run_fresh fixp (bso_pset s) rest
+      | _ => True
+      end
+  end.
+
+Lemma bl_run_unfold fixp p pa rest :
+  bl_run fixp p (pa :: rest) =
+  match bl_party_step fixp p pa (is_last rest) with
+  | BOk s => bl_run fixp (bso_pset s) rest | BErr => BErr | BPanic => BPanic end.
+Proof. reflexivity. Qed.
+
+Theorem run_ledger fixp : forall ps p pf, wf_pset p ->
+  bl_run fixp p ps = BOk pf -> run_fresh fixp p ps ->
+  eqn (ledger_D pf) (ledger_D p + run_contrib fixp p ps) /\ (ps <> [] -> bps_scalars pf = []).
+Proof.
+  induction ps as [|pa rest IH]; intros p pf Hwf Hrun Hfr.
+  - cbn in Hrun. injection Hrun as <-. split; [cbn [run_contrib]; eqn_ring | congruence].
+  - rewrite bl_run_unfold in Hrun. cbn [run_contrib run_fresh] in *.
+    destruct (bl_party_step fixp p pa (is_last rest)) as [s| |] eqn:Hstep; try discriminate.
+    destruct Hfr as (Hfresh & Hwo & Hfr).
+    unfold bl_party_step in Hstep. destruct (negb (bl_new_blinder p (bpa_owned pa))); [discriminate|].
+    destruct (blind_step _ _ _ _ _ _ _ _ Hwf Hwo Hstep Hfresh) as (Hwf' & Hnil & HD).
+    destruct (IH _ _ Hwf' Hrun Hfr) as [HD' Hnil'].
+    split.
+    + rewrite HD', HD. eqn_ring.
+    + intros _. destruct rest as [|pb rest'].
+      * cbn in Hrun. injection Hrun as <-. now apply Hnil.
+      * apply Hnil'. discriminate.
+Qed.
+
+(* ---- from the ledger to the transaction: commitments as linear forms ---- *)
+Lemma lin_eqb_intro x y :
+  eqn (snd x) (snd y) -> (forall a, bl_coef (fst x) a = bl_coef (fst y) a) -> bl_lin_eqb x y = true.
+Proof.
+  intros Hg Hc. unfold bl_lin_eqb. apply andb_true_intro. split.
+  - apply Z.eqb_eq. exact Hg.
+  - apply forallb_forall. intros a _. apply Z.eqb_eq. apply Hc.
+Qed.
+Lemma lin_sum_snd l : eqn (snd (bl_lin_sum l)) (sumZ (map snd l)).
+Proof.
+  induction l as [|x t IH]; cbn [bl_lin_sum fold_right map sumZ].
+  - reflexivity.
+  - unfold bl_lin_add. cbn [snd]. rewrite eqn_mod. fold (bl_lin_sum t). rewrite IH. reflexivity.
+Qed.
+
+(* the G coefficients on the input side: spent outputs and blinded issuance amounts *)
+Fixpoint in_g (k : N) (ws : list bl_win) (pis : list bl_pin) : Z :=
+  match ws, pis with
+  | w :: ws', i :: pis' =>
+      (bwi_value w * bl_sc (bwi_abf w) + bl_sc (bwi_vbf w)) +
+      (if (bwi_iss w =? 0)%N then 0 else
+         (if 0 <? bwi_issv w then bl_v (bpi_vopen i) else 0) + (if 0 <? bwi_isst w then bl_v (bpi_topen i) else 0)) +
+      in_g (k + 1)%N ws' pis'
+  | _, _ => 0
+  end.
+Lemma amount_snd a v o : eqn (snd (bl_amount a v o)) (bl_v o).
+Proof. destruct o; cbn [bl_amount bl_commit bl_explicit snd bl_v]; [rewrite eqn_mod; eqn_ring | reflexivity]. Qed.
+Lemma tx_in_g : forall ws pis k, eqn (sumZ (map snd (bl_tx_in k ws pis))) (in_g k ws pis).
+Proof.
+  induction ws as [|w ws IH]; intros [|i pis] k; cbn [bl_tx_in in_g map sumZ]; try reflexivity.
+  rewrite map_app, sumZ_app. rewrite IH. unfold bl_in_commit, bl_commit. cbn [snd]. rewrite eqn_mod.
+  destruct (bwi_iss w =? 0)%N; cbn [map sumZ].
+  - eqn_ring.
+  - rewrite map_app, sumZ_app.
+    destruct (0 <? bwi_issv w); destruct (0 <? bwi_isst w); cbn [map sumZ]; rewrite ?amount_snd; eqn_ring.
+Qed.
+Lemma tx_out_g : forall wos pos, map bwo_value wos = map bpo_value pos ->
+  eqn (sumZ (map snd (bl_tx_out wos pos))) (ledger_out pos).
+Proof.
+  induction wos as [|w wos IH]; intros [|o pos] Hv; cbn [bl_tx_out map sumZ] in *; try discriminate; try reflexivity.
+  injection Hv as Hv1 Hv. unfold ledger_out. cbn [map sumZ]. fold (ledger_out pos). rewrite (IH _ Hv).
+  unfold out_g. destruct (bpo_open o) as [[a v]|]; cbn [bl_commit bl_explicit snd].
+  - rewrite eqn_mod, Hv1. reflexivity.
+  - reflexivity.
+Qed.
+
+(* Balance of the final transaction.  Hypotheses: blinding succeeded for every party; no output is
+   blinded twice; the amounts are conserved per asset (as Elements requires of the unblinded
+   amounts); and the parties' input scalars account for the blinders of what is spent and issued
+   (ownership is a partition of the confidential inputs, with their true openings). *)
+Theorem v2_balance_gen fixp ps p0 pf ws wos :
+  wf_pset p0 -> ps <> [] ->
+  bl_run fixp p0 ps = BOk pf -> run_fresh fixp p0 ps ->
+  map bwo_value wos = map bpo_value (bps_outs pf) ->
+  (forall a, bl_coef (fst (bl_lin_sum (bl_tx_in 0%N ws (bps_ins pf)))) a =
+             bl_coef (fst (bl_lin_sum (bl_tx_out wos (bps_outs pf)))) a) ->
+  eqn (ledger_D p0 + run_contrib fixp p0 ps) (in_g 0%N ws (bps_ins pf)) ->
+  bl_balanced ws wos pf = true.
+Proof.
+  intros Hwf Hne Hrun Hfr Hvals Hcons Hown.
+  destruct (run_ledger fixp ps p0 pf Hwf Hrun Hfr) as [HD Hnil]. specialize (Hnil Hne).
+  unfold bl_balanced. apply lin_eqb_intro; [|exact Hcons].
+  rewrite !lin_sum_snd, tx_in_g, (tx_out_g _ _ Hvals). rewrite <- Hown, <- HD.
+  unfold ledger_D, scal_sum. rewrite Hnil. cbn [map sumZ]. eqn_ring.
+Qed.
+
+(* the code as it is: only the LAST party's input scalar is ever accounted for *)
+Lemma run_contrib_asis : forall ps p, run_contrib false p ps =
+  match ps with
+  | [] => 0
+  | pa :: rest =>
+      match bl_party_step false p pa (is_last rest) with
+      | BOk s => (if is_last rest then in_sum p (bpa_iss pa) (bpa_owned pa) else 0) + run_contrib false (bso_pset s) rest
+      | _ => 0
+      end
+  end.
+Proof. intros [|pa rest] p; cbn [run_contrib]; [reflexivity|]. destruct (bl_party_step false p pa (is_last rest)); try reflexivity. destruct (is_last rest); reflexivity. Qed.
+
+(* ---- a concrete two-party exchange: party A (non-last) owns a confidential input ---- *)
+Definition ex_b (z : Z) : bytes := bl_enc z.
+Definition ex_p0 : bl_pset :=
+  bmk_pset [bmk_pin true 0 0 None None; bmk_pin false 0 0 None None]
+           [bmk_pout 60 true 0%N None; bmk_pout 40 true 1%N None; bmk_pout 10 false 0%N None] [].
+Definition ex_A : bl_party :=
+  bmk_party true true [bmk_owned 0%N 100 (Some (ex_b 5)) (Some (ex_b 7))] [] [bmk_outarg 0%N (Some (ex_b 11)) (Some (ex_b 13))].
+Definition ex_B : bl_party :=
+  bmk_party true true [bmk_owned 1%N 10 (Some bl_zero32) (Some bl_zero32)] [] [bmk_outarg 1%N (Some (ex_b 17)) (Some (ex_b 19))].
+Definition ex_ws : list bl_win := [bmk_win 0%N 100 (ex_b 5) (ex_b 7) 0%N 0 0; bmk_win 0%N 10 bl_zero32 bl_zero32 0%N 0 0].
+Definition ex_wos : list bl_wout := [bmk_wout 0%N 60; bmk_wout 0%N 40; bmk_wout 0%N 10].
+
+Definition run_balanced (fixp : bool) (p : bl_pset) (ps : list bl_party) (ws : list bl_win) (wos : list bl_wout) : option bool :=
+  match bl_run fixp p ps with BOk pf => Some (bl_balanced ws wos pf) | _ => None end.
+
+(* the statement one wants — every successful exchange of a value-conserving transaction whose
+   confidential inputs are each owned by exactly one party balances — is FALSE of the code as it is:
+   A blinds first (BlindNonLast), B last (BlindLast); both succeed; 100 + 10 = 60 + 40 + 10; the
+   commitments do not balance.  With A last instead, or with the repaired calculateOutputScalar, they do. *)
+Theorem v2_balance_refuted :
+  exists p ps ws wos, run_balanced false p ps ws wos = Some false /\ run_balanced true p ps ws wos = Some true.
+Proof. exists ex_p0, [ex_A; ex_B], ex_ws, ex_wos. split; vm_compute; reflexivity. Qed.
+Example v2_order_matters_asis : run_balanced false ex_p0 [ex_B; ex_A] ex_ws ex_wos = Some true.
+Proof. vm_compute. reflexivity. Qed.
+
+(* ================= Part 5: pset v0 — the final value blinding factor ================= *)
+
+Fixpoint sum3 (vs : list Z) (gs fs : list bytes) : Z :=
+  match vs, gs, fs with
+  | v :: vs', g :: gs', f :: fs' => (v * bl_sc g + bl_sc f) + sum3 vs' gs' fs'
+  | _, _, _ => 0
+  end.
+Fixpoint bsum_spec (vals : list Z) (gens facs : list bytes) (nin : nat) : Z :=
+  match vals, gens with
+  | v :: vals', g :: gens' =>
+      let f := match facs with x :: _ => x | [] => bl_zero32 end in
+      (match nin with O => 1 | S _ => -1 end) * (v * bl_sc g + bl_sc f) + bsum_spec vals' gens' (tl facs) (pred nin)
+  | _, _ => 0
+  end.
+
+Lemma bsum_ok : forall vals gens facs nin acc s,
+  b0_bsum vals gens facs nin acc = Some s -> eqn s (acc + bsum_spec vals gens facs nin).
+Proof.
+  induction vals as [|v vals IH]; intros gens facs nin acc s; cbn [b0_bsum bsum_spec].
+  - intros [= <-]. eqn_ring.
+  - destruct gens as [|g gens]; [intros [= <-]; eqn_ring|].
+    set (f := match facs with x :: _ => x | [] => bl_zero32 end).
+    destruct ((bl_n <=? bl_sc g) || (bl_n <=? bl_sc f)); [discriminate|].
+    intros H. apply IH in H. rewrite H. rewrite eqn_mod.
+    destruct nin; rewrite ?eqn_mod; eqn_ring.
+Qed.
+
+Lemma bsum_split : forall inV inG inF outV outG outF,
+  length inG = length inV -> length inF = length inV ->
+  bsum_spec (inV ++ outV) (inG ++ outG) (inF ++ outF) (length inV) = - sum3 inV inG inF + bsum_spec outV outG outF 0.
+Proof.
+  induction inV as [|v inV IH]; intros [|g inG] [|f inF] outV outG outF HG HF; cbn [length] in *; try discriminate.
+  - cbn [app sum3]. lia.
+  - cbn [app bsum_spec sum3 tl pred]. rewrite IH by lia. lia.
+Qed.
+Lemma bsum_out : forall outV outG outF x,
+  length outG = length outV -> (length outF + 1)%nat = length outV ->
+  bsum_spec outV outG outF 0 + bl_sc x = sum3 outV outG (outF ++ [x]).
+Proof.
+  induction outV as [|v outV IH]; intros [|g outG] outF x HG HF; cbn [length] in *; try lia.
+  destruct outF as [|f outF].
+  - destruct outV; [|cbn [length] in HF; lia]. destruct outG; [|discriminate].
+    cbn [bsum_spec sum3 app tl pred]. rewrite bl_sc_zero32. lia.
+  - cbn [bsum_spec sum3 app tl pred length] in *. rewrite <- (IH outG outF x) by lia. lia.
+Qed.
+
+(* generateOutputBlindingFactors: with the final factor appended, the G coefficients of the blinded
+   outputs equal those of the inputs and pseudo inputs *)
+Theorem v0_final_vbf_balances inV outV inG outG inF outF fv :
+  length inG = length inV -> length inF = length inV ->
+  b0_final_vbf inV outV inG outG inF outF = Some fv ->
+  eqn (sum3 inV inG inF) (sum3 outV outG (outF ++ [fv])).
+Proof.
+  intros HG HF. unfold b0_final_vbf.
+  destruct (negb _) eqn:Hc; [discriminate|].
+  apply Bool.negb_false_iff, andb_prop in Hc. destruct Hc as [H1 H2].
+  apply Nat.eqb_eq in H1. apply Nat.eqb_eq in H2. rewrite !app_length in *.
+  destruct (b0_bsum _ _ _ _ 0) as [s|] eqn:Hs; [|discriminate]. intros [= <-].
+  apply bsum_ok in Hs. rewrite bsum_split in Hs by assumption.
+  rewrite <- (bsum_out outV outG outF) by lia.
+  rewrite bl_sc_enc_mod, eqn_mod, Hs. eqn_ring.
+Qed.
+
+(* ---- the write-back of createBlindedOutputs ---- *)
+Definition ex0_ins : list b0_in := [bmk_b0in 0%N 100 (ex_b 5) (ex_b 7) 0%N 0 0].
+Definition ex0_outs : list b0_out := [bmk_b0out 0%N 30 false; bmk_b0out 0%N 60 false; bmk_b0out 0%N 10 true].
+Definition ex0_rng : list bytes := map ex_b [21; 22; 23; 24; 25; 26; 27; 28].
+Definition b0_run_balanced fixq ins outs sel :=
+  match b0_blind fixq ins outs sel false true ex0_rng with
+  | BOk r => Some (b0_balanced ins outs r) | BErr => None | BPanic => Some false end.
+
+(* both spendable outputs blinded (indexes 0,1): the code as it is succeeds and balances *)
+Example v0_contiguous_balances : b0_run_balanced false ex0_ins ex0_outs [0%N; 1%N] = Some true.
+Proof. vm_compute. reflexivity. Qed.
+(* only output 1 blinded (the other stays explicit): the arrays have one entry, the write-back reads
+   entry 1: index out of range.  Blinding exactly the requested outputs when they are not 0..k-1 is
+   impossible with the code as it is; with the arrays indexed by position it succeeds and balances. *)
+Theorem v0_blinded_set_refuted :
+  exists ins outs sel, b0_blind false ins outs sel false true ex0_rng = BPanic /\
+                       b0_run_balanced true ins outs sel = Some true.
+Proof. exists ex0_ins, ex0_outs, [1%N]. split; vm_compute; reflexivity. Qed.
+
+(* ================= Part 6: which arguments the proofs are made with ================= *)
+
+Definition all_owned (ins : list bl_tin) : list bool := map (fun _ => true) ins.
+Definition no_issuance (i : bl_tin) : Prop := bti_hasiss i = false /\ bti_amount_set i = false /\ bti_token_set i = false.
+(* the issuance fields of the transaction agree with what the generator assumes *)
+Definition iss_consistent (i : bl_tin) : Prop :=
+  bti_amount_set i = bti_hasiss i /\ bti_token_set i = (bti_hasiss i && negb (bti_reiss i)).
+
+Lemma view_owned : forall ins, map (fun oi => bl_view_tag (fst oi) (snd oi)) (combine (all_owned ins) ins) = map bl_true_tag ins.
+Proof. induction ins as [|i t IH]; cbn [all_owned map combine fst snd]; [reflexivity|]. unfold all_owned in IH. now rewrite IH. Qed.
+
+(* the tag list handed to the prover equals the verifier's list when the party owns every input and
+   only the last input carries an issuance *)
+Lemma tags_agree pre l : Forall no_issuance pre -> iss_consistent l ->
+  bl_tags_gen (all_owned (pre ++ [l])) (pre ++ [l]) = bl_tags_true (pre ++ [l]).
+Proof.
+  intros Hpre [Ha Ht]. unfold bl_tags_gen, bl_tags_true. rewrite view_owned.
+  rewrite !flat_map_app, map_app. cbn [flat_map map]. rewrite !app_nil_r.
+  assert (H1 : flat_map bl_iss_tags_gen pre = []).
+  { induction Hpre as [|i t [Hi _] _ IH]; cbn [flat_map]; [reflexivity|]. unfold bl_iss_tags_gen at 1. now rewrite Hi, IH. }
+  assert (H2 : flat_map (fun i => bl_true_tag i :: bl_iss_tags_true i) pre = map bl_true_tag pre).
+  { clear H1. induction Hpre as [|i t (Hi & Hx & Hy) _ IH]; cbn [flat_map map]; [reflexivity|].
+    unfold bl_iss_tags_true at 1. rewrite Hx, Hy. cbn [app]. now rewrite IH. }
+  rewrite H1, H2. cbn [app]. rewrite <- app_assoc. cbn [app]. f_equal. f_equal.
+  unfold bl_iss_tags_gen, bl_iss_tags_true. rewrite Ha, Ht.
+  destruct (bti_hasiss l); [|reflexivity]. cbn [andb]. destruct (bti_reiss l); reflexivity.
+Qed.
+
+Section ProofsVerify.
+  (* surjection and range proofs of libsecp256k1-zkp, with their completeness laws *)
+  Variable sproof : Type.
+  Variable surj_prove : list bl_tag -> bl_tag -> option sproof.
+  Variable surj_verify : list bl_tag -> bl_tag -> sproof -> bool.
+  Hypothesis surj_complete : forall tags out pf, surj_prove tags out = Some pf -> surj_verify tags out pf = true.
+
+  Variable rproof : Type.
+  (* sign: value, value blinder, asset tag, script (extra commit), nonce; verify: commitment, tag, script *)
+  Variable range_sign : Z -> bytes -> bl_tag -> bytes -> bytes -> option rproof.
+  Variable range_verify : bl_lin -> bl_tag -> bytes -> rproof -> bool.
+  Hypothesis range_complete : forall asset v abf vbf script nonce pf,
+    range_sign v vbf (bmk_tag asset abf) script nonce = Some pf ->
+    range_verify (bl_commit (be_dec asset) v (bl_sc abf) (bl_sc vbf)) (bmk_tag asset abf) script pf = true.
+
+  (* a surjection proof made by BlindOutputs verifies against the verifier's tags whenever the two
+     tag lists coincide *)
+  Theorem surjection_verifies own ins out pf :
+    bl_tags_gen own ins = bl_tags_true ins ->
+    surj_prove (bl_tags_gen own ins) out = Some pf -> surj_verify (bl_tags_true ins) out pf = true.
+  Proof. intros <-. apply surj_complete. Qed.
+
+  Corollary surjection_verifies_single_party pre l out pf :
+    Forall no_issuance pre -> iss_consistent l ->
+    surj_prove (bl_tags_gen (all_owned (pre ++ [l])) (pre ++ [l])) out = Some pf ->
+    surj_verify (bl_tags_true (pre ++ [l])) out pf = true.
+  Proof. intros Hp Hl. apply surjection_verifies. now apply tags_agree. Qed.
+
+  (* the last output of the last blinder: LastValueCommitment(value, assetCommitment, lv) and
+     LastValueRangeProof(value, asset, assetBlinder, commitment, lv, script, nonce) are made from the
+     same value, tag and blinder, so the proof verifies against what is written *)
+  Theorem range_proof_verifies asset v abf vbf script nonce pf :
+    range_sign v vbf (bmk_tag asset abf) script nonce = Some pf ->
+    range_verify (bl_commit (be_dec asset) v (bl_sc abf) (bl_sc vbf)) (bmk_tag asset abf) script pf = true.
+  Proof. apply range_complete. Qed.
+End ProofsVerify.
+
+(* the hypothesis of surjection_verifies fails in the multi-party flow and for an issuance that is
+   not on the last input *)
+Definition ex_t (s : Z) (conf : bool) : bl_tin :=
+  bmk_tin ((if conf then x0a else x01) :: ex_b s) (ex_b s) (if conf then ex_b 9 else bl_zero32)
+          false false false false false [] [].
+Theorem surjection_args_refuted_unowned :
+  exists own ins, bl_tags_gen own ins <> bl_tags_true ins /\ bl_tags_val own ins = bl_tags_gen own ins.
+Proof.
+  exists [true; false], [ex_t 1 false; ex_t 2 false]. split; [|reflexivity].
+  intro H. vm_compute in H. discriminate H.
+Qed.
+Definition ex_ti : bl_tin :=
+  bmk_tin (x01 :: ex_b 1) (ex_b 1) bl_zero32 true false true true true (ex_b 3) (ex_b 4).
+Theorem surjection_args_refuted_issuance_order :
+  exists ins, Forall iss_consistent ins /\ bl_tags_gen (all_owned ins) ins <> bl_tags_true ins.
+Proof.
+  exists [ex_ti; ex_t 2 false]. split.
+  - repeat constructor.
+  - intro H. vm_compute in H. discriminate H.
+Qed.
+(* generator and validator build their lists differently: an issuance without inflation keys *)
+Example generator_validator_disagree :
+  let i := bmk_tin (x01 :: ex_b 1) (ex_b 1) bl_zero32 true false false true false (ex_b 3) (ex_b 4) in
+  bl_tags_gen [true] [i] <> bl_tags_val [true] [i].
+Proof. intro i. intro H. vm_compute in H. discriminate H. Qed.
